@@ -15,6 +15,8 @@ QAddrs == {None, 0, 2, 4, 8}
 QSizes == {None, 8, 12}
 QAligns == {None, 2, 4, 6}
 QPalette == {"u8", "u16", "u32", "u64", "cptr", "arr16x2"}
+Q3Aligns == {4}
+Q3Palette == {"u8", "u32", "unk2"}
 Q2Addrs == {None, 0, 8, 12}
 Q2Sizes == {None}
 Q2Aligns == {None, 16}
